@@ -30,7 +30,7 @@ def obligations(tier):
     o = []
     to = 900 if tier == 'quick' else 2400
     quick_gap = (4, 16, 32)
-    quick_ov = (1, 4, 8)
+    quick_ov = (4, 8)      # w1 runs in the thorough tier: C09 quick has to stay well below 900 s
     for bits in WIDTHS:
         nm = BLOCKS[bits] + 1 if bits < 8 else 3
         if tier == 'thorough' or bits in quick_gap:
